@@ -200,6 +200,7 @@ REWRITES = [
     ("R8", "trafficshape/handler.go", lock_yield("trafficshape")),
     ("R8", "trafficshape/listener.go", lock_yield("trafficshape")),
     ("R8", "marbl/handler.go", lock_yield("marbl", split=True)),
+    ("R8", "parse/parse.go", lock_yield("parse")),
 ]
 
 
